@@ -9,8 +9,11 @@ from .interp import Interp, Ctx, explore, deep_clone, Infeasible, norm_ty
 from .models import deref, drain
 
 VERIF = os.path.dirname(os.path.dirname(os.path.abspath(__file__)))
-CACHE = os.path.join(VERIF, '.cache')
-REPO = os.environ.get('VERIF_REPO', '/repo')
+# Development aid (never used by the registered commands): VERIF_ALT=<path of another checkout of the repository> runs a check against
+# that checkout with its own cache and evidence directory, so a seeded change can be evaluated while other checks use /repo.
+ALT = os.environ.get('VERIF_ALT')
+CACHE = os.path.join(VERIF, '.cache', 'alt-' + hashlib.sha256(ALT.encode()).hexdigest()[:8]) if ALT else os.path.join(VERIF, '.cache')
+REPO = ALT or os.environ.get('VERIF_REPO', '/repo')
 CRATE = os.path.join(REPO, 'rust', 'ommx')
 
 
